@@ -50,6 +50,8 @@ def construct(tbl, row, cls, dest, inst, p):
                 return cls(broadcast=True)
             if p == IUNADDR:
                 return cls()
+            if p in (-1100, -1101, -1102):          # contradictory: broadcast together with an address (0, 5, False)
+                return cls(broadcast=True, address={-1100: 0, -1101: 5, -1102: False}[p])
             return cls(address=_p(p))
         return cls() if p == NOARG else cls(_p(p))
     if tbl == "dev":
@@ -188,7 +190,7 @@ def build(tier, seed):
     pv("nibble", [-1] + list(range(16)) + [16, NOARG, NONINT, WRONGOBJ, FLOATP])
     pv("byte", byte_all if tier == "thorough" else byte_q)
     pv("short", [-1] + list(range(64)) + [64, 127, 255, NONINT, WRONGOBJ, FLOATP])
-    pv("init", [IBCAST, IUNADDR, -1] + list(range(64)) + [64, NONINT, WRONGOBJ, FLOATP])
+    pv("init", [IBCAST, IUNADDR, -1] + list(range(64)) + [64, NONINT, WRONGOBJ, FLOATP, -1100, -1101, -1102])
     two_q = sorted({0, 1, 255, 256, 257, 65535, 0xFE00, 0x00FE} | {rng.randrange(65536) for _ in range(64)})
     pv("two", (list(range(65536)) if tier == "thorough" else two_q) + [65536, 65536 + 7, -1, NONINT, WRONGOBJ, FLOATP])
     ill_gear = [["int", -1], ["int", 64], ["dshort", 5], ["dgroup", 3], ["dbcast", 0], ["dunaddr", 0], ["other", 0]]
@@ -338,6 +340,11 @@ def judge(prop, mode, tier, seed, replay, with_flags=False, with_decode=False):
                     recs.append({"kind": kind, "dt": j[0], "hb": j[1], "row": rows.add(cells)})
                 else:
                     recs.append({"kind": kind, "hi": j[0], "map": j[1], "pv": cmdrec.PVALS[j[2]][0], "row": rows.add(cells)})
+        if with_decode:
+            from . import freshproc
+            fresh = freshproc.decode_records(rows)
+            ncells += sum(len(rows.rows[r_["row"] - 1]) for r_ in fresh)
+            recs += fresh
         if replay is not None:
             c = replay["case"]
             recs = [r for r in recs if all(r.get(k) == v for k, v in c.items())]
